@@ -172,6 +172,12 @@ def check_config(ctx, F, tag):
                     wrong.append((tstr(a)[:60], loc(st["sp"])))
     ctx.ob("C01.R6.rank-support-word-count", rb.name + tag, loc(rb.raw["span"]), not wrong, "term-shape",
            "%d `words - block * WORDS_PER_BLOCK` clamps; word count that is a truncating division of the bit length (+1): %s" % (nsub, wrong), nontrivial=False)
+    # R7/R8 (borrowed): the in-word select both select paths end in (C17.R3, this configuration's arm), and the enable_* guards --
+    # "with the needed support enabled" must not depend on the order in which supports were enabled (C19.R1)
+    from core import Relabel
+    import c17, c19
+    c17.check_config(Relabel(ctx, {"C17.R3.select-arm": "C01.R7.in-word-select"}), F, tag, "portable" if "portable" in tag else "native")
+    c19.check_config(Relabel(ctx, {"C19.R1.enable-only-when-absent": "C01.R8.enable-only-when-absent"}), F, tag)
     co = F.body("<bit_vector::BitVector as ops::BitVec<'a>>::count_ones")
     ctx.ob("C01.R3.count-ones-is-cached-field", co.name + tag, loc(co.raw["span"]), self_path(co.term_of_local(0)) == ["ones"], "term-shape", "count_ones() = %s" % tstr(co.term_of_local(0)), nontrivial=False)
     ln = F.body("<bit_vector::BitVector as ops::BitVec<'a>>::len")
